@@ -240,9 +240,12 @@ func Encode(d Doc) []byte {
 }
 
 type Variant struct {
-	Name  string
-	Shard *shard.Shard
-	Path  string
+	Name    string
+	Shard   *shard.Shard
+	Path    string
+	MgrSize int64
+	Poison  *PoisonStore // non-nil: the storage handle is wrapped by the poisoning proxy (poison.go)
+	Opens   int          // how many times this variant was (re)opened
 }
 
 // Sim: several real shards fed the same batches + the shadow collection
@@ -260,34 +263,75 @@ func NewCollection(schema models.IndexSchema) models.Collection {
 		UserPlan: models.UserPlan{Name: "t", MaxCollections: 1, MaxCollectionPointCount: 1 << 30, MaxPointSize: 1 << 20}}
 }
 
-// variants: name -> cache manager size; "mem" uses the memory backend with an unlimited cache
+// variants: name -> cache manager size; "mem" uses the memory backend with an unlimited cache;
+// "restart" is a file-backed shard with an unlimited cache behind the poisoning storage proxy that
+// the harness closes and reopens at chosen points of the history (Reopen): its cache is filled by
+// READS and then lives across further batches. A name with the suffix "+poison" puts that variant
+// behind the poisoning proxy as well.
 func NewSim(dir string, schema models.IndexSchema, variants []string) *Sim {
 	s := &Sim{Col: NewCollection(schema), Dir: dir, Docs: map[uuid.UUID]Doc{}}
 	for _, v := range variants {
-		path := filepath.Join(dir, v+".bbolt")
-		var mgr *cache.Manager
-		switch v {
+		name, poison := strings.CutSuffix(v, "+poison")
+		vr := &Variant{Name: name, Path: filepath.Join(dir, name+".bbolt")}
+		switch name {
 		case "live":
-			mgr = cache.NewManager(-1)
+			vr.MgrSize = -1
 		case "disabled":
-			mgr = cache.NewManager(0)
+			vr.MgrSize = 0
 		case "evicting":
-			mgr = cache.NewManager(64) // a few points: every index cache is pruned right after use
+			vr.MgrSize = 64 // a few points: every index cache is pruned right after use
 		case "lru":
-			mgr = cache.NewManager(600) // room for some caches, not all: LRU eviction of whole caches
+			vr.MgrSize = 600 // room for some caches, not all: LRU eviction of whole caches
 		case "mem":
-			mgr = cache.NewManager(-1)
-			path = ""
+			vr.MgrSize = -1
+			vr.Path = ""
+		case "restart":
+			vr.MgrSize = -1
+			poison = true
 		default:
 			panic("unknown variant " + v)
 		}
-		sh, err := shard.NewShard(path, s.Col, mgr)
-		if err != nil {
-			panic(err)
+		if poison {
+			vr.Poison = &PoisonStore{}
 		}
-		s.Variants = append(s.Variants, &Variant{Name: v, Shard: sh, Path: path})
+		s.open(vr)
+		s.Variants = append(s.Variants, vr)
 	}
 	return s
+}
+
+func (s *Sim) open(vr *Variant) {
+	sh, err := shard.NewShard(vr.Path, s.Col, cache.NewManager(vr.MgrSize))
+	if err != nil {
+		panic(err)
+	}
+	if vr.Poison != nil {
+		sh.VerifWrapDB(func(d diskstore.DiskStore) diskstore.DiskStore { vr.Poison.Inner = d; return vr.Poison })
+	}
+	vr.Shard = sh
+	vr.Opens++
+}
+
+func (s *Sim) Variant(name string) *Variant {
+	for _, v := range s.Variants {
+		if v.Name == name {
+			return v
+		}
+	}
+	return nil
+}
+
+// Reopen: close the variant's shard and open a new one (fresh cache manager) on the same file — a
+// restart of the server. No-op for an unknown name or the memory backend.
+func (s *Sim) Reopen(name string) {
+	vr := s.Variant(name)
+	if vr == nil || vr.Path == "" {
+		return
+	}
+	if err := vr.Shard.Close(); err != nil {
+		panic(err)
+	}
+	s.open(vr)
 }
 
 func (s *Sim) Live() *shard.Shard { return s.Variants[0].Shard }
@@ -301,9 +345,14 @@ func (s *Sim) Close() {
 // OpenCopy: a fresh shard on a consistent copy of the live db file (cold start), with the given
 // cache manager size
 func (s *Sim) OpenCopy(mgrSize int64) (*shard.Shard, func()) {
+	return s.OpenCopyOf(s.Variants[0], mgrSize)
+}
+
+// OpenCopyOf: the same for the file of any file-backed variant
+func (s *Sim) OpenCopyOf(vr *Variant, mgrSize int64) (*shard.Shard, func()) {
 	s.nCold++
 	path := filepath.Join(s.Dir, fmt.Sprintf("cold%d.bbolt", s.nCold))
-	if err := s.Live().VerifDB().BackupToFile(path); err != nil {
+	if err := vr.Shard.VerifDB().BackupToFile(path); err != nil {
 		panic(err)
 	}
 	sh, err := shard.NewShard(path, s.Col, cache.NewManager(mgrSize))
@@ -311,6 +360,40 @@ func (s *Sim) OpenCopy(mgrSize int64) (*shard.Shard, func()) {
 		panic(err)
 	}
 	return sh, func() { sh.Close(); os.Remove(path) }
+}
+
+// ApplyFaulted: the batch is given ONLY to the variants behind the storage proxy, with a storage
+// fault armed at commit time: each must report an error, and nothing of the batch is committed (the
+// shadow collection and the other variants never see it). Returns "" or what went wrong.
+func (s *Sim) ApplyFaulted(b Batch) string {
+	pts := make([]models.Point, len(b.Changes))
+	set := map[uuid.UUID]struct{}{}
+	for i, c := range b.Changes {
+		set[c.Id] = struct{}{}
+		if c.Doc != nil {
+			pts[i] = models.Point{Id: c.Id, Data: Encode(c.Doc)}
+		}
+	}
+	for _, v := range s.Variants {
+		if v.Poison == nil {
+			continue
+		}
+		v.Poison.FailWrites(1)
+		var err error
+		switch b.Kind {
+		case "insert":
+			err = v.Shard.InsertPoints(pts)
+		case "update":
+			_, err = v.Shard.UpdatePoints(pts)
+		case "delete":
+			_, err = v.Shard.DeletePoints(set)
+		}
+		v.Poison.FailWrites(0)
+		if err == nil {
+			return fmt.Sprintf("%s: the %s batch reported success although its storage transaction failed", v.Name, b.Kind)
+		}
+	}
+	return ""
 }
 
 type Change struct {
